@@ -3,6 +3,6 @@ CONSTANTS
   IncMax = 3
   TokenMod = 4
   ProbeMod = 4
-  Fixes = {"654ac52", "3f5c312", "66b62cc", "7418747", "f6702a7", "73fde95", "ea3a2f4", "6ca130a"}
+  Fixes = {"654ac52", "3f5c312", "66b62cc", "7418747", "f6702a7", "73fde95", "ea3a2f4", "6ca130a", "a23716c"}
 INVARIANTS Iff DownFinal
 CHECK_DEADLOCK FALSE
